@@ -268,6 +268,30 @@ def r111(P, u, rep):
                 msg = '`%s` is accepted as an integer constant (type %s) although `%s` is not an integer-suffix of C11 6.4.4.1' % (
                     text, TYN.get(L.type_sig(it, ctx.tok.fields.get('ty', 0)), '?'), sfx)
         rep.ob('R11.2', '%s:%s:declines-suffix-%s' % (TU, fn, sfx), ok, msg, where=where)
+    # the whole alphabet instead of samples: every single letter other than u U l L, and every sequence of two or three of u U l L
+    # that is not an integer-suffix of 6.4.4.1 (letters that are digits of the base are left out)
+    import itertools as _it
+    import string as _string
+    valid = set(x[0] for x in SUFFIXES)
+    combos = [''.join(t) for k in (2, 3) for t in _it.product('uUlL', repeat=k) if ''.join(t) not in valid]
+    for name, sfxs in (('other-lower-case-letters', [c for c in _string.ascii_lowercase if c not in 'ul']),
+                       ('other-upper-case-letters', [c for c in _string.ascii_uppercase if c not in 'UL']),
+                       ('other-sequences-of-u-and-l', combos)):
+        ok, msg = True, ''
+        for sfx in sfxs:
+            for bname, base, spellings in BASES:
+                if bname == 'hex' and sfx in _string.hexdigits:
+                    continue
+                text = spellings[1] + sfx
+                it, res = explore(text)
+                for ctx, out in res:
+                    if (out[0] == 'ret' and isinstance(out[1], int) and out[1] == 0) or out[0] == 'noreturn':
+                        continue
+                    if ok:
+                        ok = False
+                        msg = '`%s` is accepted as an integer constant (type %s) although `%s` is not an integer-suffix of C11 6.4.4.1' % (
+                            text, TYN.get(L.type_sig(it, ctx.tok.fields.get('ty', 0)), '?'), sfx)
+        rep.ob('R11.2', '%s:%s:declines-%s' % (TU, fn, name), ok, msg, where=where)
 
 
 # ============================================================================= R11.3 ===
@@ -830,6 +854,53 @@ def r119(P, u, rep):
                 ok = False
                 msg = '`%s` is tokenized as %s; C11 6.4.8 makes the first preprocessing token %s' % (smp, lx.describe(u), ('the pp-number `%s`' % smp[:n]) if n else 'a punctuator')
         rep.ob('R11.9', '%s:%s:pp-number-%s' % (TU, fn, name), ok, msg, where=where)
+
+
+# ============================================================================ R11.23 ===
+_EXP_LETTERS = 'eEpP'
+_PP_CONT = ''.join(chr(c) for c in range(33, 127) if chr(c).isalnum()) + '._'
+_PP_STOP = '!%&()*,/:;<=>?[]^{|}~ '        # punctuators (and the space) that are tokens of their own right after a pp-number
+
+
+def r1123(P, u, rep):
+    """C11 6.4.8 over the whole alphabet instead of samples: after `1`, every character c that continues a pp-number (digit, letter,
+    underscore, period) is followed by each sign; the sign belongs to the pp-number iff c is one of e E p P.  After each of the four
+    exponent letters every punctuator other than the signs must end the pp-number."""
+    fn = 'tokenize'
+    rep.rule('R11.23', 'pp-number scanner, all characters: a sign continues the pp-number after each of e E p P and after no other digit, letter, underscore or period; no other punctuator continues it', floor=13)
+    where = _where(u, fn)
+
+    def first(text):
+        lx = lex(P, u, text + '\n')
+        if lx.failed or not lx.toks:
+            return None, lx
+        return (lx.kinds(u)[0], L.tok_text(lx.toks[0])), lx
+
+    classes = [('exponent-letter-%s' % c, c) for c in _EXP_LETTERS] + [
+        ('other-lower-case-letters', ''.join(c for c in _PP_CONT if c.islower() and c not in _EXP_LETTERS)),
+        ('other-upper-case-letters', ''.join(c for c in _PP_CONT if c.isupper() and c not in _EXP_LETTERS)),
+        ('digits', ''.join(c for c in _PP_CONT if c.isdigit())), ('period', '.'), ('underscore', '_')]
+    for name, chars in classes:
+        ok, msg = True, ''
+        for c in chars:
+            for sg in '+-':
+                text = '1' + c + sg + '1'
+                want = text if c in _EXP_LETTERS else text[:2]
+                got, lx = first(text)
+                if got != ('TK_PP_NUM', want.encode()) and ok:
+                    ok = False
+                    msg = '`%s` is tokenized as %s; C11 6.4.8 makes the first preprocessing token the pp-number `%s` (%s)' % (
+                        text, lx.describe(u), want, 'e E p P are followed by an optional sign' if c in _EXP_LETTERS else 'a sign continues a pp-number only after e E p P')
+        rep.ob('R11.23', '%s:%s:sign-after-%s' % (TU, fn, name), ok, msg, where=where)
+    for c in _EXP_LETTERS:
+        ok, msg = True, ''
+        for d in _PP_STOP:
+            text = '1' + c + d + '1'
+            got, lx = first(text)
+            if got != ('TK_PP_NUM', text[:2].encode()) and ok:
+                ok = False
+                msg = '`%s` is tokenized as %s; C11 6.4.8 makes the first preprocessing token the pp-number `%s` (only + and - continue it after an exponent letter)' % (text, lx.describe(u), text[:2])
+        rep.ob('R11.23', '%s:%s:only-signs-after-exponent-letter-%s' % (TU, fn, c), ok, msg, where=where)
 
 
 # ============================================================================ R11.10 ===
@@ -2356,6 +2427,8 @@ def run(P, rep, tier):
                        '8-byte type that is unsigned iff it has a u suffix or is a non-decimal constant from 2^63. '
                        'errno (R11.22): a flow analysis over the statements of every function of every unit (states of errno: unknown / reset / conversion after reset / conversion without reset; entry state of a function = union over its call sites; '
                        'functions of the program that touch errno are followed into, other library calls make it unknown) demands `errno = 0` directly before each conversion whose errno is read; convert_pp_number is also run with a stale ERANGE/EINVAL in errno. '
+                       'pp-number alphabet (R11.23): `1` followed by every digit, letter, underscore and period and then each sign, and each exponent letter followed by every other punctuator, is tokenized; the sign must be absorbed after e E p P only. '
+                       'The character functions of <ctype.h> (is*, tolower, toupper, as macros over the glibc tables or as calls) are total python models in the C locale. '
                        'Not decided: strtoul/strtof/strtod/strtold themselves, code points other than the sampled ones, universal character names that 6.4.3p2 forbids.')
     rep.assumptions += ['libc functions behave as ISO C 7.4/7.22/7.24 specify (python models)', 'x86-64: char is signed, LP64',
                         'UTF-8/UTF-16 oracles are python\'s codecs (RFC 3629 / RFC 2781)',
@@ -2365,7 +2438,7 @@ def run(P, rep, tier):
                     ('R11.5', lambda: r115(P, u, rep)), ('R11.6', lambda: r116(P, u, rep)), ('R11.7', lambda: r117(P, u, rep)),
                     ('R11.8', lambda: r118(P, u, rep)), ('R11.9', lambda: r119(P, u, rep)), ('R11.10', lambda: r1110(P, u, rep)), ('R11.11', lambda: r1111(P, rep)), ('R11.12', lambda: r1112(P, u, rep)),
                     ('R11.13', lambda: r1113(P, u, rep)), ('R11.14', lambda: r1114(P, u, rep)), ('R11.15', lambda: r1115(P, u, rep)), ('R11.16', lambda: r1116(P, u, rep)),
-                    ('R11.17', lambda: r1117(P, u, rep)), ('R11.18', lambda: r1118(P, rep)), ('R11.19', lambda: r1119(P, u, rep)), ('R11.20', lambda: r1120(P, u, rep)), ('R11.21', lambda: r1121(P, rep)), ('R11.22', lambda: r1122(P, u, rep))):
+                    ('R11.17', lambda: r1117(P, u, rep)), ('R11.18', lambda: r1118(P, rep)), ('R11.19', lambda: r1119(P, u, rep)), ('R11.20', lambda: r1120(P, u, rep)), ('R11.21', lambda: r1121(P, rep)), ('R11.22', lambda: r1122(P, u, rep)), ('R11.23', lambda: r1123(P, u, rep))):
         try:
             f()
         except AnalysisBroken as e:
